@@ -27,14 +27,14 @@ ASSUMPTIONS = [
 
 # (index kind, partition sizes, divisions mode)
 CONFIGS_Q = [
-    ("range", (6,), "auto"),
     ("range", (2, 4), "auto"),
     ("sorted_dup", (2, 1, 3), "auto"),
     ("unsorted", (0, 3, 0, 3), "auto"),
-    ("datetime", (3, 3), "unknown"),
-    ("sorted_unique", (1, 1, 1, 3), "auto"),
 ]
 CONFIGS_T = CONFIGS_Q + [
+    ("range", (6,), "auto"),
+    ("datetime", (3, 3), "unknown"),
+    ("sorted_unique", (1, 1, 1, 3), "auto"),
     ("sorted_dup", (6, 0), "auto"),
     ("range", (0, 0, 6), "auto"),
     ("unsorted", (1, 5), "auto"),
@@ -43,7 +43,7 @@ CONFIGS_T = CONFIGS_Q + [
     ("sorted_dup", (1, 2, 2, 1), "auto"),
 ]
 CONFIGS_D3 = [("range", (2, 4), "auto"), ("sorted_dup", (2, 1, 3), "auto"), ("unsorted", (0, 3, 0, 3), "auto"), ("datetime", (1, 2, 3), "unknown")]
-AL_PARTS_Q = [(6,), (3, 3), (1, 5), (2, 2, 2), (1, 4, 1), (4, 2), (0, 6), (3, 0, 3), (6, 0), (5, 1), (2, 3, 1), (1, 1, 4)]
+AL_PARTS_Q = [(6,), (3, 3), (1, 5), (2, 2, 2), (1, 4, 1), (4, 2), (0, 6), (3, 0, 3)]
 AL_KINDS = ("range", "sorted_dup", "datetime", "unsorted_unique")
 NSH = {"P2": 8, "P3": 12, "D1": 6, "AL": 8}
 
@@ -122,12 +122,13 @@ def cases_of(shard, tier, seed, counters=None):
                     if c[0] == kind:
                         yield (fam, fname, kind, c[1], c[2], prog), xs
     elif fam == "D1":
-        kinds = ("range", "sorted_dup") if tier == "quick" else dfh.INDEX_KINDS
         allparts = dfh.partitionings(NROWS, 3 if tier == "quick" else 4)
-        for kind in kinds:
+        for ki, kind in enumerate(dfh.INDEX_KINDS):
             root = index_frame(pdf0, kind)
             for prog, xs in P.enumerate_programs(root, ("full",), first_filter=pick, counters=counters):
-                for parts in allparts:
+                for pi, parts in enumerate(allparts):
+                    if tier == "quick" and pi % len(dfh.INDEX_KINDS) != ki:
+                        continue  # quick: every partitioning once, the index kind rotating over the partitionings
                     yield (fam, fname, kind, parts, "auto", prog), xs
     elif fam == "AL":
         plist = AL_PARTS_Q if tier == "quick" else dfh.partitionings(NROWS, 3)
@@ -174,9 +175,7 @@ def align_class(case):
     """AL family: how dask has to align the two separately built operands"""
     root = index_frame(dfh.base_frames(0, NROWS)[case[1]], case[2])
     k1, k2 = dfh.divisions_for(root, case[3]) is not None, dfh.divisions_for(root, case[6]) is not None
-    if k1 and k2:
-        return "other:known-divisions"
-    return "other:unknown-divisions-" + ("same" if len(case[3]) == len(case[6]) else "different") + "-npartitions"
+    return "other:known-divisions" if k1 and k2 else "other:unknown-divisions"
 
 
 def evaluate(case, pxs, seed):
@@ -230,13 +229,31 @@ def run_case(case, ctx, pxs=None):
         if r is not None:
             status, detail = r[0], r[1]
     step = prog[k - 1]
+    if status.startswith("dask-raises") and len(pxs[k - 1]) == 0 and rejected_on_nonempty(step, pxs[k - 1]):
+        ctx.count("inapplicable")  # pandas accepts the step only because the frame is EMPTY; it rejects the schema as soon as there is a row
+        return
     if fam == "AL":
         op = P.sig(step)
-        op = "binop" if (op.startswith("binop") or op == "add") else op
-        key = f"{op}:{status}:{align_class(case)}"
+        op, cls = "binop" if (op.startswith("binop") or op == "add") else op, align_class(case)
+        if op == "binop" and cls == "other:unknown-divisions" and status.startswith("wrong:"):
+            status = "wrong-result"  # one defect (partitions combined positionally), many shapes of wrongness
+        if op == "str.cat":
+            cls = "other:not-co-aligned"
+        key = f"{op}:{status}:{cls}"
     else:
         key = f"{P.sig(step)}:{status}:{known_class(step, status, pxs[k - 1]) or input_class(pxs[k - 1])}"
     ctx.violation(key, case, f"step {k} of {len(prog)}: {detail}")
+
+
+def rejected_on_nonempty(step, x):
+    from dask.dataframe.utils import meta_nonempty
+
+    try:
+        with np.errstate(all="ignore"):
+            P.ev(step, {"x": meta_nonempty(x.iloc[:0]), "root": None, "root2": None, "dask": False})
+    except Exception:  # noqa: BLE001
+        return True
+    return False
 
 
 def known_class(step, status, x):
